@@ -33,7 +33,7 @@ def tname(n):
 def errclass(txt):
     if txt == "":
         return 0
-    if txt == "context canceled":
+    if txt in ("context canceled", "context deadline exceeded"):
         return 1
     if txt == "closed":
         return 2
